@@ -72,6 +72,10 @@ impl Regions {
 
             self.id_to_index.insert(meta.id().to_string(), index);
             self.index_to_region[index] = Some(Region::from(db, index, meta));
+            #[cfg(feature = "verif")]
+            if let Some(region) = &self.index_to_region[index] {
+                region.verif_register();
+            }
         }
 
         Ok(())
@@ -96,6 +100,8 @@ impl Regions {
             .unwrap_or_else(|| self.index_to_region.len());
 
         let region = Region::new(db, id.clone(), index, start, 0, PAGE_SIZE);
+        #[cfg(feature = "verif")]
+        region.verif_register();
 
         self.set_min_len((index + 1) * SIZE_OF_REGION_METADATA)?;
 
